@@ -97,13 +97,38 @@ pub(crate) fn vrt_observe_bytes(v: &[u8]) {
 
 /// write a file of the (virtual) file system and return the path to open it with.
 /// native: a per-process temp directory; E2: a per-path dictionary consulted by the File::open / read_data models
+static VRT_FS_DIR: std::sync::Mutex<Option<std::path::PathBuf>> = std::sync::Mutex::new(None);
+static VRT_FS_CASE: std::sync::atomic::AtomicU32 = std::sync::atomic::AtomicU32::new(0);
+
+/// native only: forget the file system of the previous case (a fresh directory is made on the next vrt_fs_write)
+pub(crate) fn vrt_fs_reset() {
+    let mut g = VRT_FS_DIR.lock().unwrap_or_else(|e| e.into_inner());
+    if let Some(d) = g.take() {
+        let _ = std::env::set_current_dir(std::env::temp_dir());
+        let _ = std::fs::remove_dir_all(d);
+    }
+}
+
+/// write a file of the (virtual) file system and return the name to open it with. Names are relative ("main.a2l",
+/// "ecu/meas.a2l"); the root of the file system is the current directory.
+/// native: a fresh temp directory per case, made the current directory; E2: a per-path dictionary consulted by the
+/// File::open / read_data / Path::exists models
 #[inline(never)]
 pub(crate) fn vrt_fs_write(name: &str, content: &[u8]) -> String {
-    let dir = std::env::temp_dir().join(format!("vrt_fs_{}", std::process::id()));
-    std::fs::create_dir_all(&dir).unwrap();
-    let p = dir.join(name);
+    let mut g = VRT_FS_DIR.lock().unwrap_or_else(|e| e.into_inner());
+    if g.is_none() {
+        let n = VRT_FS_CASE.fetch_add(1, std::sync::atomic::Ordering::SeqCst);
+        let d = std::env::temp_dir().join(format!("vrt_fs_{}_{}", std::process::id(), n));
+        std::fs::create_dir_all(&d).unwrap();
+        std::env::set_current_dir(&d).unwrap();
+        *g = Some(d);
+    }
+    let p = g.as_ref().unwrap().join(name);
+    if let Some(parent) = p.parent() {
+        std::fs::create_dir_all(parent).unwrap();
+    }
     std::fs::write(&p, content).unwrap();
-    p.to_string_lossy().to_string()
+    name.to_string()
 }
 
 // ---- helpers built on the primitives (plain Rust: executed symbolically like any other code)
@@ -155,6 +180,7 @@ fn vrt_replay_entry() {
         let h = it.next().unwrap().to_string();
         let vals = it.next().unwrap_or("").to_string();
         println!("VRT-BEGIN {}", i);
+        vrt_fs_reset();
         let r = std::panic::catch_unwind(move || {
             vrt_load_values(&vals);
             vrt_soft_fail_count_and_reset();
@@ -170,6 +196,7 @@ fn vrt_replay_entry() {
             Err(_) => println!("VRT-END {} panic", i),
         }
     }
+    vrt_fs_reset();
 }
 
 // VRT_KNOWN and vrt_dispatch are generated below by the driver
